@@ -142,6 +142,9 @@ Definition ged_assign (f : flds) (o : sx) : option flds :=
   | SL [SA 7; b] => do bs <- sx_arr 16 b; Some (fset_seq f 6 bs)
   | SL [SA 8; b] => do bs <- sx_arr 20 b; Some (fset_seq f 22 bs)
   | SL [SA 9; b] => do bs <- sx_arr 8 b; Some (fset_seq f 42 bs)
+  (* d.add_data(Box::new(payload)): to_aml_bytes emits the boxed objects after the 50 fixed bytes, in insertion order;
+     error_data_length is a pub field the caller sets, add_data does not touch it *)
+  | SL [SA 10; b] => do bs <- sx_bytes b; Some (f ++ fbytes (map (fun x => x mod 256) bs))
   | _ => None
   end.
 
